@@ -1,7 +1,7 @@
 (* C14 — lemmas, part 3: a wildcard in a dictionary word stands for exactly one character,
    provided literal and wildcard branches never compete. *)
 From Coq Require Import ZArith List Bool Lia.
-From FV Require Import Generated.Consts C14.Model C14.ProofsDict C14.ProofsMatch.
+From FV Require Import Generated.Consts C14.Model C14.Spec C14.ProofsDict C14.ProofsMatch.
 Import ListNotations.
 Open Scope Z_scope.
 
